@@ -55,7 +55,9 @@ func C05(p *core.Program, r *core.Report) {
 		c := core.NewCanon(p)
 		okAll := true
 		var wrote []string
-		for _, call := range core.Calls(dg, func(ci ssa.CallInstruction) bool { return core.IsCallTo(ci, "(*bytes.Buffer).WriteString", "(*strings.Builder).WriteString") }) {
+		for _, call := range core.Calls(dg, func(ci ssa.CallInstruction) bool {
+			return core.IsCallTo(ci, "(*bytes.Buffer).WriteString", "(*strings.Builder).WriteString")
+		}) {
 			v := c.Of(call.Common().Args[1])
 			wrote = append(wrote, v)
 			if v != `"\n"` && !strings.HasPrefix(v, "iface.GenerateOutput(") {
